@@ -1,5 +1,6 @@
 import Proofs.Lemmas.Emit
 import Proofs.Lemmas.EmitObl
+import Proofs.Lemmas.EmitOrder
 import Generated.C16CompileNodes
 /-!
 # C16 — ahead-of-time compilation preserves behaviour (compiled = interpreted)
@@ -109,7 +110,75 @@ theorem C16_same_runner_obligation :
     skeleton runCompiledSteps = [.normalize, .cacheGet, .cacheSet, .createContext, .registerGlobals, .run, .flush] :=
   Proofs.EmitObl.same_skeleton
 
+/-- **Order.** Every ordered collection of the AST is walked front to back, and a collection the
+AST keeps twice (lookup map + order slice: `ClassStatement.Properties` / `PropertiesIndex`) is walked
+through the slice and only looked up in the map. On the regenerated uses of every slice- or
+map-typed field in the functions reached from the handlers: a slice is only `range`d, measured or
+nil-tested (no computed index, no re-slicing, never handed to `sort.…`/`slices.…`); a map that has an
+order companion is only indexed; the function that indexes it ranges over the companion. A handler
+that iterates `sortedKeys(n.Properties)`, ranges over the map, sorts `PropertiesIndex` in place or
+walks a slice back to front: this `decide` fails — also when the handler still *reads* both fields,
+which `C16_static_drops_allowed` cannot see. -/
+theorem C16_order_obligation :
+    Model.EmitOrder.orderRespected Generated.C16CompileNodes.orderPairs Generated.C16CompileNodes.accesses = true := by
+  decide +kernel
+
+/-- the pair the obligation is about is still found by the translator (non-vacuity of clause 2/3) -/
+theorem C16_order_pairs_found :
+    Generated.C16CompileNodes.orderPairs.contains ⟨"node.ClassStatement", "Properties", "PropertiesIndex"⟩ = true := by
+  decide +kernel
+
 /-! ### generic theorems -/
+
+section order
+open Model.EmitOrder
+
+/-- **Walking the order slice preserves the declaration order and every lookup**: what
+`NewClassStatement` rebuilds from the slice literal written by `for _, name := range
+n.PropertiesIndex { emit(n.Properties[name]) }` has the same index and answers every by-name
+question as the parser's collection. -/
+theorem C16_order_by_index {α : Type} (k : Keyed α) (ht : k.total k.index) :
+    (rebuildKeyed (emitByIndex k)).index = k.index ∧
+    ∀ n ∈ k.index, (rebuildKeyed (emitByIndex k)).get n = k.get n :=
+  ⟨Proofs.EmitOrder.rebuilt_index k k.index ht, Proofs.EmitOrder.rebuilt_get k k.index ht⟩
+
+/-- **Walking any other key list**: the rebuilt order is that key list — equal to the declaration
+order iff the key list is — while every by-name lookup still answers as before. So a handler that
+walks the keys of the map (sorted, or in Go's map order) yields a program in which property reads,
+writes, defaults, visibility and methods all behave, and only the order differs: no test that asks
+by name can notice; only an observer of the order can. -/
+theorem C16_order_by_keys {α : Type} (k : Keyed α) (keys : List String) (ht : k.total keys) :
+    ((rebuildKeyed (emitBy keys k)).index = k.index ↔ keys = k.index) ∧
+    ∀ n ∈ keys, (rebuildKeyed (emitBy keys k)).get n = k.get n := by
+  refine ⟨?_, Proofs.EmitOrder.rebuilt_get k keys ht⟩
+  rw [Proofs.EmitOrder.rebuilt_index k keys ht]
+
+/-- … in particular for the sorted key list of a `sortedKeys` helper: the order survives iff the
+properties were declared in sorted order -/
+theorem C16_order_by_sorted_keys {α : Type} (k : Keyed α) (ht : k.total k.index) :
+    (rebuildKeyed (emitBy (sortStrings k.index) k)).index = k.index ↔ sortStrings k.index = k.index :=
+  (C16_order_by_keys k (sortStrings k.index)
+    (fun n hn => ht n ((Proofs.EmitOrder.mem_sortStrings n k.index).mp hn))).1
+
+/-- the obligation is not vacuous: the uses a `sortedKeys(n.Properties)` handler makes of the pair
+are rejected even though both fields are still read -/
+example : orderRespected [⟨"node.ClassStatement", "Properties", "PropertiesIndex"⟩]
+    [⟨"emitClassStatementInit", "node.ClassStatement", "Properties", true, "range"⟩,
+     ⟨"emitClassStatementInit", "node.ClassStatement", "Properties", true, "index"⟩,
+     ⟨"emitClassStatementInit", "node.ClassStatement", "PropertiesIndex", false, "len"⟩] = false := by decide
+example : orderRespected [⟨"node.ClassStatement", "Properties", "PropertiesIndex"⟩]
+    [⟨"emitClassStatementInit", "node.ClassStatement", "Properties", true, "index"⟩,
+     ⟨"emitClassStatementInit", "node.ClassStatement", "PropertiesIndex", false, "range"⟩] = true := by decide
+example : orderRespected [] [⟨"emitCallMethod", "node.CallMethod", "Args", false, "index"⟩] = false := by decide
+example : orderRespected [] [⟨"emitArray", "node.Array", "Keys", false, "ext:sort.Slice"⟩] = false := by decide
+/-- the seeded shape: five properties declared `owner, id, balance, currency, active` -/
+example : sortStrings ["owner", "id", "balance", "currency", "active"] = ["active", "balance", "currency", "id", "owner"] := by
+  decide
+example : (rebuildKeyed (emitBy (sortStrings ["owner", "id", "balance"])
+    (⟨["owner", "id", "balance"], fun n => some n.length⟩ : Keyed Nat))).index = ["balance", "id", "owner"] := by
+  decide
+
+end order
 
 /-- **Round trip.** For every table and every tree: if `Emit` produces text, evaluating that text
 yields exactly the tree `erase` describes — every field that is neither skipped by tag nor unread
